@@ -34,6 +34,39 @@
 
 #include "netgate.h"
 
+// The simulator's own bookkeeping is touched by whichever thread holds the gate; the gate is invisible to
+// TSan (on purpose), so these accesses are excluded from race detection with TSan's ignore annotations.
+#if defined(__SANITIZE_THREAD__)
+extern "C" {
+void AnnotateIgnoreReadsBegin(const char* f, int l);
+void AnnotateIgnoreReadsEnd(const char* f, int l);
+void AnnotateIgnoreWritesBegin(const char* f, int l);
+void AnnotateIgnoreWritesEnd(const char* f, int l);
+}
+namespace sim
+{
+    struct TsanIgnore
+    {
+        TsanIgnore()
+        {
+            AnnotateIgnoreReadsBegin(__FILE__, __LINE__);
+            AnnotateIgnoreWritesBegin(__FILE__, __LINE__);
+        }
+        ~TsanIgnore()
+        {
+            AnnotateIgnoreWritesEnd(__FILE__, __LINE__);
+            AnnotateIgnoreReadsEnd(__FILE__, __LINE__);
+        }
+    };
+}
+#else
+namespace sim
+{
+    struct TsanIgnore
+    { };
+}
+#endif
+
 namespace sim
 {
     using namespace Pistache;
@@ -113,7 +146,12 @@ extern "C" {
 int pthread_create(pthread_t* th, const pthread_attr_t* attr, void* (*fn)(void*), void* arg)
 {
     static auto fnreal = sim::real<int (*)(pthread_t*, const pthread_attr_t*, void* (*)(void*), void*)>("pthread_create");
-    if (!sim::S().capture_threads)
+    bool capture;
+    {
+        sim::TsanIgnore ign;
+        capture = sim::S().capture_threads;
+    }
+    if (!capture)
         return fnreal(th, attr, fn, arg);
     auto* t = new sim::Tramp { fn, arg, ng_reserve() };
     return fnreal(th, attr, sim::tramp, t);
@@ -128,9 +166,10 @@ int epoll_wait(int epfd, struct epoll_event* evs, int maxev, int timeout)
     ng_park(epfd);
     if (!ng_active())
         return fn(epfd, evs, maxev, timeout);
+    int n = fn(epfd, evs, maxev, 0);
+    sim::TsanIgnore ign;
     sim::State& s = sim::S();
     s.consecutive_block.clear();
-    int n = fn(epfd, evs, maxev, 0);
     if (n > 0)
     {
         int m = 0;
@@ -159,52 +198,89 @@ int epoll_wait(int epfd, struct epoll_event* evs, int maxev, int timeout)
 int epoll_ctl(int epfd, int op, int fd, struct epoll_event* ev)
 {
     static auto fn = sim::real<int (*)(int, int, int, epoll_event*)>("epoll_ctl");
-    sim::State& s  = sim::S();
-    if (op == EPOLL_CTL_DEL)
-        s.interest.erase({ epfd, fd });
-    else if (ev)
-        s.interest[{ epfd, fd }] = *ev;
+    {
+        sim::TsanIgnore ign;
+        sim::State& s = sim::S();
+        if (op == EPOLL_CTL_DEL)
+            s.interest.erase({ epfd, fd });
+        else if (ev)
+            s.interest[{ epfd, fd }] = *ev;
+    }
     return fn(epfd, op, fd, ev);
 }
 
 static ssize_t sim_answer(int fd, size_t len, const std::function<ssize_t(size_t)>& doit)
 {
-    sim::State& s = sim::S();
-    ++s.send_calls;
-    sim::Answer a { sim::FULL, 0 };
-    auto it   = s.plan.find(fd);
-    bool held = s.held.count(fd) && s.held[fd];
-    if (held)
-        a = { sim::BLOCK, 0 };
-    else if (it != s.plan.end() && !it->second.empty())
-    {
-        a = it->second.front();
-        it->second.pop_front();
-    }
-    if (a.kind == sim::BLOCK)
-    {
-        s.held[fd] = true;
-        errno      = EAGAIN;
-        int c      = ++s.consecutive_block[fd];
-        if (c >= 3)
-        {
-            s.livelock = true;
-            s.held[fd] = false;
-        }
-        return -1;
-    }
     size_t n = len;
-    if (a.kind == sim::ACCEPT && a.k < len)
-        n = a.k;
+    {
+        sim::TsanIgnore ign;
+        sim::State& s = sim::S();
+        ++s.send_calls;
+        sim::Answer a { sim::FULL, 0 };
+        auto it   = s.plan.find(fd);
+        bool held = s.held.count(fd) && s.held[fd];
+        if (held)
+            a = { sim::BLOCK, 0 };
+        else if (it != s.plan.end() && !it->second.empty())
+        {
+            a = it->second.front();
+            it->second.pop_front();
+        }
+        if (a.kind == sim::BLOCK)
+        {
+            s.held[fd] = true;
+            int c      = ++s.consecutive_block[fd];
+            if (c >= 3)
+            {
+                s.livelock = true;
+                s.held[fd] = false;
+            }
+            errno = EAGAIN;
+            return -1;
+        }
+        if (a.kind == sim::ACCEPT && a.k < len)
+            n = a.k;
+    }
     return doit(n);
 }
+
+static bool sim_has_plan(int fd)
+{
+    sim::TsanIgnore ign;
+    return sim::S().held.count(fd) || sim::S().plan.count(fd);
+}
+
+// TSan models ALL sockets with one global sync object (it cannot know which sockets are connected), so every
+// send() "happens before" every later recv() on any socket: in a server that turns each response of one worker
+// into a happens-before edge to the next request of every other worker and hides all races between workers.
+// Connections of different workers share no data through the kernel, so in the TSan flavour the event-loop
+// threads do their socket I/O through the raw system calls, which TSan does not see.
+#if defined(__SANITIZE_THREAD__)
+#include <sys/syscall.h>
+static ssize_t sim_raw_send(int fd, const void* b, size_t n, int fl) { return syscall(SYS_sendto, fd, b, n, fl, nullptr, 0); }
+static ssize_t sim_raw_recv(int fd, void* b, size_t n, int fl) { return syscall(SYS_recvfrom, fd, b, n, fl, nullptr, nullptr); }
+#endif
 
 ssize_t send(int fd, const void* buf, size_t len, int flags)
 {
     static auto fn = sim::real<ssize_t (*)(int, const void*, size_t, int)>("send");
-    if (ng_self() < 0 && !(sim::S().held.count(fd) || sim::S().plan.count(fd)))
+    if (ng_self() < 0 && !sim_has_plan(fd))
         return fn(fd, buf, len, flags);
+#if defined(__SANITIZE_THREAD__)
+    if (ng_self() >= 0)
+        return sim_answer(fd, len, [&](size_t n) { return sim_raw_send(fd, buf, n, flags); });
+#endif
     return sim_answer(fd, len, [&](size_t n) { return fn(fd, buf, n, flags); });
+}
+
+ssize_t recv(int fd, void* buf, size_t len, int flags)
+{
+    static auto fn = sim::real<ssize_t (*)(int, void*, size_t, int)>("recv");
+#if defined(__SANITIZE_THREAD__)
+    if (ng_self() >= 0)
+        return sim_raw_recv(fd, buf, len, flags);
+#endif
+    return fn(fd, buf, len, flags);
 }
 
 ssize_t sendfile(int out_fd, int in_fd, off_t* offset, size_t count)
@@ -218,6 +294,7 @@ ssize_t sendfile(int out_fd, int in_fd, off_t* offset, size_t count)
 int clock_gettime(clockid_t clk, struct timespec* ts)
 {
     static auto fn = sim::real<int (*)(clockid_t, struct timespec*)>("clock_gettime");
+    sim::TsanIgnore ign;
     if (sim::S().virtual_time && clk == CLOCK_MONOTONIC)
     {
         int64_t t   = sim::S().nowNs;
@@ -231,6 +308,7 @@ int clock_gettime(clockid_t clk, struct timespec* ts)
 int timerfd_create(int clockid, int flags)
 {
     static auto fn = sim::real<int (*)(int, int)>("timerfd_create");
+    sim::TsanIgnore ign;
     if (!sim::S().virtual_time)
         return fn(clockid, flags);
     int fd = eventfd(0, EFD_NONBLOCK | ((flags & TFD_CLOEXEC) ? EFD_CLOEXEC : 0));
@@ -242,6 +320,7 @@ int timerfd_create(int clockid, int flags)
 int timerfd_settime(int fd, int flags, const struct itimerspec* nv, struct itimerspec* ov)
 {
     static auto fn = sim::real<int (*)(int, int, const struct itimerspec*, struct itimerspec*)>("timerfd_settime");
+    sim::TsanIgnore ign;
     sim::State& s  = sim::S();
     auto it        = s.timers.find(fd);
     if (!s.virtual_time || it == s.timers.end())
@@ -264,9 +343,10 @@ int timerfd_settime(int fd, int flags, const struct itimerspec* nv, struct itime
 int close(int fd)
 {
     static auto fn = sim::real<int (*)(int)>("close");
-    sim::State& s  = sim::S();
     if (ng_active() && fd >= 0)
     {
+        sim::TsanIgnore ign;
+        sim::State& s = sim::S();
         if (fcntl(fd, F_GETFD) == -1 && errno == EBADF)
             s.bad_closes.push_back(fd);
         s.timers.erase(fd);
@@ -280,8 +360,32 @@ int close(int fd)
 namespace sim
 {
     // ---- controller side ------------------------------------------------------------------------------
+    inline void bump_activity()
+    {
+        TsanIgnore ign;
+        ++S().activity;
+    }
+    inline void forget_last_events(int a)
+    {
+        TsanIgnore ign;
+        S().last_events[a] = -1;
+    }
+    inline void configure(bool virtualTime, bool captureThreads, bool resetAll)
+    {
+        TsanIgnore ign;
+        if (resetAll)
+            S().reset();
+        S().virtual_time    = virtualTime;
+        S().capture_threads = captureThreads;
+    }
+    inline bool livelock_seen()
+    {
+        TsanIgnore ign;
+        return S().livelock;
+    }
     inline bool actor_ready(int a)
     {
+        TsanIgnore ign;
         if (ng_has_exited(a) || !ng_is_parked(a))
             return false;
         struct pollfd p;
@@ -328,6 +432,7 @@ namespace sim
     // wait (bounded, real time) for the kernel to make some loop ready after a client-side action
     inline bool await_readiness(int maxMs = 30)
     {
+        TsanIgnore ign;
         ++S().activity;
         for (int i = 0; i < maxMs * 5; ++i)
         {
@@ -340,6 +445,7 @@ namespace sim
     }
     inline void tick(int ms)
     {
+        TsanIgnore ign;
         State& s = S();
         s.nowNs += int64_t(ms) * 1000000ll;
         ++s.activity;
@@ -362,10 +468,12 @@ namespace sim
     }
     inline void hold(int fd)
     {
+        TsanIgnore ign;
         S().held[fd] = true;
     }
     inline void release(int fd)
     {
+        TsanIgnore ign;
         State& s   = S();
         s.held[fd] = false;
         ++s.activity;
@@ -411,9 +519,7 @@ namespace sim
             fdsBefore = list_fds();
             workers   = nworkers;
             ng_reset();
-            S().reset();
-            S().virtual_time    = true;
-            S().capture_threads = true;
+            configure(true, true, true);
             ng_set_active(1);
             Address addr(Ipv4::loopback(), Port(0));
             ep = std::make_shared<Http::Endpoint>(addr);
@@ -443,7 +549,7 @@ namespace sim
         {
             bool ok = true;
             ep->shutdown();
-            ++S().activity;
+            bump_activity();
             for (int round = 0; round < 50; ++round)
             {
                 bool all = true;
@@ -454,7 +560,7 @@ namespace sim
                     all = false;
                     if (ng_is_parked(a))
                     {
-                        S().last_events[a] = -1;
+                        forget_last_events(a);
                         step_actor(a);
                     }
                     else
@@ -467,14 +573,14 @@ namespace sim
                 if (!ng_has_exited(a))
                     ok = false;
             ng_release_all();
-            S().capture_threads = false;
+            configure(true, false, false);
             ep.reset();
             // descriptors pistache never closes (NotifyFd eventfds, the idle-scan timer) are reclaimed here
             static auto cl = real<int (*)(int)>("close");
             for (int fd : list_fds())
                 if (!std::binary_search(fdsBefore.begin(), fdsBefore.end(), fd))
                     cl(fd);
-            S().virtual_time = false;
+            configure(false, false, false);
             return ok;
         }
     };
@@ -488,7 +594,12 @@ namespace sim
 
         bool connect_to(int port)
         {
-            fd = ::socket(AF_INET, SOCK_STREAM | SOCK_CLOEXEC, 0);
+            static auto cl = real<int (*)(int)>("close");
+            int low        = ::socket(AF_INET, SOCK_STREAM | SOCK_CLOEXEC, 0);
+            // keep the scripted clients out of the low descriptor numbers: the server's accepted sockets then get
+            // consecutive numbers, as with remote clients (the listener spreads connections by fd % workers)
+            fd = fcntl(low, F_DUPFD_CLOEXEC, 600);
+            cl(low);
             sockaddr_in sa;
             memset(&sa, 0, sizeof sa);
             sa.sin_family      = AF_INET;
